@@ -2,6 +2,7 @@
 //! input  = W|tag:hex,...|tag,tag,...|VER|tag=hex;...   whole_font: provider tables, tag list requested, and what
 //!                                                       whole_font hands to the builder (`-|-` = must fail)
 //!        | S|fixture-relative-path|gid,gid,...      subset::subset on a fixture font (judge only)
+//!        | V|AC|USER|SHARED|GLYPHS|HVAR|MVAR|VALS  variations::instance on a synthetic variable font of the C12 generator (judge only)
 //!        | Z|index|prefixhex|blockhex               whole_font over a synthetic WOFF2 font of the C11 generator (judge only)
 //!        | I|fixture-relative-path|c1,c2,...        variations::instance (user coords, raw 16.16) (judge only)
 //! output = ok:FILEHEX | err:E | panic
@@ -28,6 +29,12 @@ use std::panic::{catch_unwind, AssertUnwindSafe};
 #[path = "c11.rs"]
 #[allow(dead_code, unused_imports, unused_variables, unused_mut)]
 mod c11;
+
+/// the C12 harness as a source of synthetic variable TrueType fonts (gvar on simple and composite glyphs,
+/// point-matched components, HVAR / MVAR) for `variations::instance`
+#[path = "c12.rs"]
+#[allow(dead_code, unused_imports, unused_variables, unused_mut)]
+mod c12;
 
 struct MapProvider {
     tables: HashMap<u32, Vec<u8>>,
@@ -167,6 +174,93 @@ fn consistency_of(get: &dyn Fn(u32) -> Option<Vec<u8>>, min_glyphs: usize) -> Ve
     flags
 }
 
+/// structural rules of the cmap table a subset carries (the library builds that table itself): header and
+/// encoding records in bounds, and per sub-table the length field and the format 4 binary-search header
+fn cmap_structure_flags(d: &[u8]) -> Vec<String> {
+    let u16_ = |o: usize| -> Option<usize> { d.get(o..o + 2).map(|b| u16::from_be_bytes([b[0], b[1]]) as usize) };
+    let u32_ = |o: usize| -> Option<usize> { d.get(o..o + 4).map(|b| u32::from_be_bytes([b[0], b[1], b[2], b[3]]) as usize) };
+    let mut flags = vec![];
+    let n = match u16_(2) {
+        Some(n) => n,
+        None => return vec!["cmap-header-truncated".to_string()],
+    };
+    let mut seen = vec![];
+    for k in 0..n {
+        let off = match u32_(4 + 8 * k + 4) {
+            Some(o) => o,
+            None => return vec!["cmap-records-truncated".to_string()],
+        };
+        if seen.contains(&off) {
+            continue;
+        }
+        seen.push(off);
+        let bad = |w: &str| format!("cmap-subtable-at-{}-{}", off, w);
+        match u16_(off) {
+            Some(4) => {
+                let (len, sc2, sr, es, rs) = match (u16_(off + 2), u16_(off + 6), u16_(off + 8), u16_(off + 10), u16_(off + 12)) {
+                    (Some(a), Some(b), Some(c), Some(e), Some(f)) => (a, b, c, e, f),
+                    _ => {
+                        flags.push(bad("truncated"));
+                        continue;
+                    }
+                };
+                let sc = sc2 / 2;
+                if sc2 % 2 != 0 || sc == 0 {
+                    flags.push(bad("segCountX2"));
+                    continue;
+                }
+                let lg = (usize::BITS - 1 - sc.leading_zeros()) as usize;
+                if sr != 2 * (1 << lg) || es != lg || rs != 2 * sc - 2 * (1 << lg) {
+                    flags.push(bad(&format!("search-fields-{}-{}-{}-for-{}-segments", sr, es, rs, sc)));
+                }
+                if len < 16 + 8 * sc || off + len > d.len() || (len - 16 - 8 * sc) % 2 != 0 {
+                    flags.push(bad("length"));
+                    continue;
+                }
+                let ends: Vec<usize> = (0..sc).filter_map(|i| u16_(off + 14 + 2 * i)).collect();
+                if ends.last() != Some(&0xFFFF) {
+                    flags.push(bad("last-endCode-not-FFFF"));
+                }
+                if ends.windows(2).any(|w| w[0] >= w[1]) {
+                    flags.push(bad("endCodes-not-ascending"));
+                }
+                if u16_(off + 14 + 2 * sc) != Some(0) {
+                    flags.push(bad("reservedPad"));
+                }
+            }
+            Some(12) => match (u32_(off + 4), u32_(off + 12)) {
+                (Some(len), Some(ng)) => {
+                    if len != 16 + 12 * ng || off + len > d.len() {
+                        flags.push(bad("length"));
+                    } else {
+                        let g: Vec<(usize, usize)> = (0..ng).filter_map(|i| Some((u32_(off + 16 + 12 * i)?, u32_(off + 20 + 12 * i)?))).collect();
+                        if g.iter().any(|(s, e)| s > e) || g.windows(2).any(|w| w[0].1 >= w[1].0) {
+                            flags.push(bad("groups-not-ascending"));
+                        }
+                    }
+                }
+                _ => flags.push(bad("truncated")),
+            },
+            Some(0) => {
+                if u16_(off + 2) != Some(262) || off + 262 > d.len() {
+                    flags.push(bad("length"));
+                }
+            }
+            Some(6) => match (u16_(off + 2), u16_(off + 8)) {
+                (Some(len), Some(c)) => {
+                    if len != 10 + 2 * c || off + len > d.len() {
+                        flags.push(bad("length"));
+                    }
+                }
+                _ => flags.push(bad("truncated")),
+            },
+            Some(_) => {}
+            None => flags.push(bad("out-of-bounds")),
+        }
+    }
+    flags
+}
+
 fn fixture(path: &str) -> Vec<u8> {
     let repo = std::env::var("VERIF_REPO").unwrap_or_else(|_| "/repo".to_string());
     std::fs::read(format!("{}/tests/fonts/{}", repo, path)).unwrap_or_default()
@@ -239,8 +333,28 @@ pub fn run(input: &str) -> String {
             };
             let gids: Vec<u16> = parts[2].split(',').map(|g| g.parse().unwrap()).collect();
             match subset::subset(&p, &gids) {
-                Ok(b) => format!("ok:{}:{}", hex(&b), consistency(&b, gids.len()).join("+")),
+                Ok(b) => {
+                    let mut flags = consistency(&b, gids.len());
+                    // the cmap of a subset is built by the library: its structure is judged too
+                    if let Ok(fd) = ReadScope::new(&b).read::<FontData<'_>>() {
+                        if let Ok(p2) = fd.table_provider(0) {
+                            if let Ok(Some(c)) = p2.table_data(tag::CMAP) {
+                                flags.extend(cmap_structure_flags(&c));
+                            }
+                        }
+                    }
+                    format!("ok:{}:{}", hex(&b), flags.join("+"))
+                }
                 Err(_) => "err".to_string(),
+            }
+        }
+        "V" => {
+            // variations::instance on a synthetic variable font: every glyph of the instance must parse
+            let mut p: Vec<&str> = parts.clone();
+            p[0] = "e2e";
+            match c12::e2e::e2e_instance_bytes(&p) {
+                Some(b) => format!("ok:{}:{}", hex(&b), consistency(&b, 1).join("+")),
+                None => "err".to_string(),
             }
         }
         "Z" => {
@@ -536,6 +650,10 @@ pub fn gen(rng: &mut Rng) -> String {
                 }
             }
             format!("S|{}|{}", f, g.iter().map(|x| x.to_string()).collect::<Vec<_>>().join(","))
+        }
+        5 => {
+            let line = c12::e2e::gen_e2e(rng);
+            format!("V|{}", line.strip_prefix("e2e|").unwrap_or(&line))
         }
         4 => {
             // an undamaged synthetic WOFF2 font from the C11 generator
